@@ -10,6 +10,7 @@ import (
 	"math/rand"
 	"os"
 	"os/exec"
+	"path"
 	"path/filepath"
 	"sort"
 	"strings"
@@ -489,7 +490,56 @@ func runForge(o fsOpts) *result {
 					for _, st := range hist.Steps {
 						calls = append(calls, st.Call.Line())
 					}
+					// An attacker can drop signed records (nothing unsigned is accepted by doing so), which
+					// makes an older signed state visible: content signed under one name may then show
+					// under a name the writer gave the file by a (signed) rename.  Contents are therefore
+					// attributed to the whole set of names a file had.
+					alias := map[string]string{}
+					var find func(x string) string
+					find = func(x string) string {
+						if p, ok := alias[x]; ok && p != x {
+							r := find(p)
+							alias[x] = r
+							return r
+						}
+						return x
+					}
+					for _, st := range hist.Steps {
+						if st.Call.Method == "rename" && st.Res == "ok" && len(st.Call.Args) == 2 {
+							a := strings.Trim(path.Clean("/"+h.DecName(st.Call.Args[0])), "/")
+							b := strings.Trim(path.Clean("/"+h.DecName(st.Call.Args[1])), "/")
+							alias[find(a)] = find(b)
+						}
+					}
+					storedUnder := func(n, v string) bool {
+						n = strings.TrimPrefix(n, "/")
+						root := find(n)
+						for m, vs := range legitContents {
+							if find(m) == root && vs[v] {
+								return true
+							}
+						}
+						return false
+					}
+					if os.Getenv("VERIF_DEBUG") != "" {
+						fmt.Fprintf(os.Stderr, "DEBUG legit rebuild contents=%v\nDEBUG legitContents=%v\n", legit.contents, legitContents)
+						its, _, _ := h.ScanTape(drive, 0)
+						for _, l := range h.ItemLines(its, c.PlainHeader) {
+							f := strings.Split(l, "\t")
+							if len(f) > 8 {
+								fmt.Fprintf(os.Stderr, "DEBUG item %s blk=%s hb=%s db=%s name=%q size=%s pax=%s\n", f[0], f[1], f[2], f[3], h.DecName(f[5]), f[7], f[8][:min(len(f[8]), 200)])
+							} else {
+								fmt.Fprintf(os.Stderr, "DEBUG item %s\n", l)
+							}
+						}
+						for _, st := range hist.Steps {
+							fmt.Fprintf(os.Stderr, "DEBUG step %s -> %s\n", strings.ReplaceAll(st.Call.Line(), "\t", " "), st.Res)
+						}
+					}
 					judge := func(tag, what string, rr rebuildResult) {
+						if os.Getenv("VERIF_DEBUG") != "" && tag == "byteflip" {
+							fmt.Fprintf(os.Stderr, "DEBUG %s: err=%q contents=%v accepted=%d\n", what, rr.err, rr.contents, len(rr.accepted))
+						}
 						mu.Lock()
 						res.Calls++
 						res.OracleChecks["C08"]++
@@ -516,7 +566,7 @@ func runForge(o fsOpts) *result {
 							if strings.HasPrefix(v, "error") {
 								continue
 							}
-							if !legitContents[strings.TrimPrefix(n, "/")][v] {
+							if !storedUnder(n, v) {
 								fail(OracleFail{Property: "C08", Hist: id, Step: 0, Calls: append(append([]string{}, calls...), "forgery\t"+what),
 									What: fmt.Sprintf("restoring %q from an altered tape (%s; pipeline %s) returned content (%s) the writer never stored under that name", n, what, spec, v)})
 								return
@@ -565,6 +615,14 @@ func runForge(o fsOpts) *result {
 							positions = append(positions, r.Intn(len(data)))
 						}
 					}
+					if fl := os.Getenv("VERIF_FLIPS"); fl != "" {
+						positions = positions[:0]
+						for _, x := range strings.Split(fl, ",") {
+							var v int
+							fmt.Sscan(x, &v)
+							positions = append(positions, v)
+						}
+					}
 					for _, p := range positions {
 						mut := append([]byte{}, data...)
 						mut[p] ^= byte(1 << uint(r.Intn(8)))
@@ -584,6 +642,9 @@ func runForge(o fsOpts) *result {
 		}()
 	}
 	for j := 0; j < o.n; j++ {
+		if j < o.from || (o.to >= 0 && j >= o.to) {
+			continue
+		}
 		jobs <- j
 	}
 	close(jobs)
